@@ -6,13 +6,27 @@ use crate::verif_anyboard as ab;
 use crate::verif_refspec as rs;
 use crate::verif_shim as vk;
 
+// contract of RawBoard::zobrist_hash imported here: a pure function of (cells, side, rights, mark).
+// The stand-in is the projection onto an arbitrary witness square plus the three scalar fields, so
+// "stored hash == stand-in(stored raw)" for every witness square says the real code evaluates the
+// hash function on exactly the raw board it stores (parametricity in the callee); the callee itself
+// is C05/scratch/zobrist-hash.
+static mut HASH_WITNESS: usize = 0;
+fn stub_zobrist_hash(r: &RawBoard) -> u64 {
+    let w = unsafe { HASH_WITNESS };
+    let ep = match r.ep_source { Some(p) => p.index() as u64 + 1, None => 0 };
+    (rs::ci(r.cells[w]) as u64) | ((r.side as u64) << 8) | ((r.castling.index() as u64) << 16) | (ep << 24)
+}
+
 harness! {
     #[kani::unwind(66)]
     #[kani::stub(crate::attack::rook, crate::verif_anyboard::stub_rook)]
     #[kani::stub(crate::attack::bishop, crate::verif_anyboard::stub_bishop)]
-    fn c11_try_from_result_normalised_wf_hashed() {
+    #[kani::stub(crate::board::RawBoard::zobrist_hash, stub_zobrist_hash)]
+    fn c11_try_from_result_normalised_wf_hashed_v3() {
         let raw = ab::any_raw();
         let w = ab::any_sq();
+        unsafe { HASH_WITNESS = w as usize; }
         if let Ok(b) = Board::try_from(raw) {
             let n = rs::ref_normalise(&raw);
             // differs from the input only by the dropped rights / mark
@@ -21,19 +35,8 @@ harness! {
             assert!(b.r.castling == n.castling && b.r.ep_source == n.ep_source);
             // derived sets: well-formed pointwise
             assert!(ab::wf_at(&b, w));
-            // stored hash: the definition (== RawBoard::zobrist_hash by C05/scratch/zobrist-hash)
-            let pk = crate::zobrist::verif_kani_b::piece_key_table();
-            let ek = crate::zobrist::verif_kani_b::enpassant_key_table();
-            let ck = crate::zobrist::verif_kani_b::castling_key_table();
-            let mut want = if b.r.side == Color::White { zobrist::MOVE_SIDE } else { 0 };
-            if let Some(p) = b.r.ep_source { want ^= ek[p.index()]; }
-            want ^= ck[b.r.castling.index()];
-            let mut r = 0;
-            while r < 8 { let mut f = 0; while f < 8 {
-                let c = rs::ci(b.r.cells[r * 8 + f]) as usize;
-                if c != 0 { want ^= pk[c][r * 8 + f]; }
-                f += 1; } r += 1; }
-            assert!(b.hash == want);
+            // stored hash: the hash function applied to the stored raw board
+            assert!(b.hash == stub_zobrist_hash(&b.r));
             cover!(b.r.castling != raw.castling);
             cover!(b.r.ep_source != raw.ep_source);
             cover!(b.r.ep_source.is_some());
